@@ -1,7 +1,766 @@
 package main
 
-// tryReplay turns a solver model into a Go test against the real package (see replay templates).
-// Returns verdict ("reproduced" | "not-reproduced" | "no-template" | ""), the test source and its output.
+import (
+	"bytes"
+	"context"
+	"encoding/json"
+	"fmt"
+	"go/types"
+	"os"
+	"os/exec"
+	"path/filepath"
+	"regexp"
+	"sort"
+	"strings"
+	"time"
+
+	"golang.org/x/tools/go/ssa"
+)
+
+// Replay of a solver counterexample against the real code.
+//
+// A failed obligation that comes with a model (status "failed": some solver answered sat) is replayed when
+// the function's inputs can be rebuilt from the model: scalar parameters, header parameters (rebuilt as
+// headertest.DummyHeader with the model's height and time), a context, and a receiver that points to a struct
+// of scalar fields (pointer-to-struct fields of scalar fields one level down included; every other field is
+// left at its zero value). The generated in-package test is injected with `go test -overlay` (nothing is
+// written to the repository), calls the real function on those inputs and prints what happened.
+//   safety obligations (div0, index, slice, make, nopanic): reproduced iff the call panics;
+//   ensures obligations over scalar results: the clause is evaluated on the inputs and the ACTUAL results
+//     (by a ground SMT query) and is reproduced iff it is false for them.
+// Anything else answers "no-template" and the VIOLATION line keeps its no-failing-input-found suffix.
+
+type replayArg struct {
+	goExpr string // Go expression of the argument
+}
+
+type replayPlan struct {
+	pkgDir   string
+	pkgName  string
+	terms    map[string]string // label -> SMT term to evaluate in the model
+	build    func(vals map[string]string) (recv string, args []string, ok bool)
+	method   bool
+	name     string
+	results  []types.Type
+	needHT   bool
+	needTime bool
+	needCtx  bool
+	sliceTerms []string // []H fields whose elements have to be fetched in a second pass
+}
+
+func isScalar(t types.Type) bool {
+	t = unalias(t)
+	if namedPath(t) == "time.Duration" || namedPath(t) == "time.Time" {
+		return true
+	}
+	b, ok := t.Underlying().(*types.Basic)
+	if !ok {
+		return false
+	}
+	return b.Info()&(types.IsInteger|types.IsBoolean) != 0
+}
+
+func smtIntValue(v string) (string, bool) {
+	v = strings.TrimSpace(v)
+	if m := regexp.MustCompile(`^\(-\s*(\d+)\)$`).FindStringSubmatch(v); m != nil {
+		return "-" + m[1], true
+	}
+	if regexp.MustCompile(`^\d+$`).MatchString(v) {
+		return v, true
+	}
+	return "", false
+}
+
+func goScalar(t types.Type, v string, p *replayPlan) (string, bool) {
+	t = unalias(t)
+	if b, ok := t.Underlying().(*types.Basic); ok && b.Info()&types.IsBoolean != 0 {
+		if v == "true" || v == "false" {
+			return v, true
+		}
+		return "", false
+	}
+	n, ok := smtIntValue(v)
+	if !ok {
+		return "", false
+	}
+	switch namedPath(t) {
+	case "time.Duration":
+		p.needTime = true
+		return "time.Duration(" + n + ")", true
+	case "time.Time":
+		p.needTime = true
+		return "time.Unix(0, " + n + ").UTC()", true
+	}
+	return types.TypeString(t, func(*types.Package) string { return "" }) + "(" + n + ")", true
+}
+
+func planReplay(eng *Engine, fn *ssa.Function, ob *Obligation) *replayPlan {
+	if fn == nil || fn.Pkg == nil || fn.Parent() != nil {
+		return nil
+	}
+	path := fn.Pkg.Pkg.Path()
+	if !strings.HasPrefix(path, repoModule+"/") {
+		return nil // the root package cannot import headertest from an in-package test
+	}
+	p := &replayPlan{pkgDir: strings.TrimPrefix(path, repoModule+"/"), pkgName: fn.Pkg.Pkg.Name(), terms: map[string]string{}, name: fn.Name()}
+	sig := fn.Signature
+	for i := 0; i < sig.Results().Len(); i++ {
+		p.results = append(p.results, sig.Results().At(i).Type())
+	}
+	declared := func(sym string) bool { _, ok := ob.fc.decls.text[sym]; return ok }
+	type argSpec struct {
+		kind   string // scalar | hdr | ctx | recv
+		typ    types.Type
+		sym    string
+		fields []fieldSpec
+		named  *types.Named
+	}
+	var specs []argSpec
+	for i, prm := range fn.Params {
+		name := prm.Name()
+		if name == "_" || name == "" {
+			name = fmt.Sprintf("arg%d", i)
+		}
+		sym := "in_" + sanitize(name)
+		t := prm.Type()
+		switch {
+		case i == 0 && sig.Recv() != nil:
+			n, ok := isStructPtr(t)
+			if !ok || n.Obj().Pkg() == nil || n.Obj().Pkg().Path() != path {
+				return nil
+			}
+			p.method = true
+			fs, ok := scalarFields(n, sym, 0, declared, p)
+			if !ok {
+				return nil
+			}
+			specs = append(specs, argSpec{kind: "recv", typ: t, sym: sym, fields: fs, named: n})
+		case isScalar(t):
+			p.terms["arg:"+sym] = sym
+			specs = append(specs, argSpec{kind: "scalar", typ: t, sym: sym})
+		case isTypeParam(t):
+			p.terms["h:"+sym] = "(height " + sym + ")"
+			p.terms["t:"+sym] = "(htime " + sym + ")"
+			p.terms["z:"+sym] = "(isZero " + sym + ")"
+			p.needHT, p.needTime = true, true
+			specs = append(specs, argSpec{kind: "hdr", typ: t, sym: sym})
+		case namedPath(t) == "context.Context":
+			p.needCtx = true
+			specs = append(specs, argSpec{kind: "ctx"})
+		default:
+			return nil
+		}
+		if !declared(sym) && specs[len(specs)-1].kind != "ctx" {
+			return nil
+		}
+	}
+	p.build = func(vals map[string]string) (string, []string, bool) {
+		recv := ""
+		var args []string
+		for _, a := range specs {
+			switch a.kind {
+			case "recv":
+				lit, ok := structLiteral(a.named, a.fields, vals, p)
+				if !ok {
+					return "", nil, false
+				}
+				recv = "&" + lit
+			case "scalar":
+				g, ok := goScalar(a.typ, vals["arg:"+a.sym], p)
+				if !ok {
+					return "", nil, false
+				}
+				args = append(args, g)
+			case "hdr":
+				if vals["z:"+a.sym] == "true" {
+					args = append(args, "(*headertest.DummyHeader)(nil)")
+					continue
+				}
+				h, ok1 := smtIntValue(vals["h:"+a.sym])
+				tm, ok2 := smtIntValue(vals["t:"+a.sym])
+				if !ok1 || !ok2 {
+					return "", nil, false
+				}
+				args = append(args, fmt.Sprintf("&headertest.DummyHeader{Chainid: \"replay\", HeightI: %s, Timestamp: time.Unix(0, %s).UTC()}", h, tm))
+			case "ctx":
+				args = append(args, "context.Background()")
+			}
+		}
+		return recv, args, true
+	}
+	return p
+}
+
+type fieldSpec struct {
+	name  string
+	typ   types.Type
+	label string      // scalar: label of the term
+	inner []fieldSpec // pointer to struct
+	named *types.Named
+	hdrSlice string // []H field: SMT term of the slice
+}
+
+func scalarFields(n *types.Named, ref string, depth int, declared func(string) bool, p *replayPlan) ([]fieldSpec, bool) {
+	st, ok := n.Underlying().(*types.Struct)
+	if !ok {
+		return nil, false
+	}
+	var out []fieldSpec
+	for i := 0; i < st.NumFields(); i++ {
+		f := st.Field(i)
+		heap := structHeapName(n, f.Name()) + "_0"
+		if !declared(heap) {
+			continue // never read by the function: irrelevant for the counterexample
+		}
+		term := fmt.Sprintf("(select %s %s)", heap, ref)
+		switch {
+		case isScalar(f.Type()):
+			label := "f:" + term
+			p.terms[label] = term
+			out = append(out, fieldSpec{name: f.Name(), typ: f.Type(), label: label})
+		default:
+			if in, ok := isStructPtr(f.Type()); ok && depth < 1 && in.Obj().Pkg() != nil && strings.HasPrefix(in.Obj().Pkg().Path(), repoModule) {
+				fs, ok := scalarFields(in, term, depth+1, declared, p)
+				if !ok {
+					return nil, false
+				}
+				out = append(out, fieldSpec{name: f.Name(), typ: f.Type(), inner: fs, named: in})
+			}
+			// a slice of headers: its length and the elements' heights/times come from the model
+			if sl, ok := unalias(f.Type()).Underlying().(*types.Slice); ok && isTypeParam(sl.Elem()) {
+				label := "sl:" + term
+				p.terms[label] = "(s-len " + term + ")"
+				p.sliceTerms = append(p.sliceTerms, term)
+				out = append(out, fieldSpec{name: f.Name(), typ: f.Type(), label: label, hdrSlice: term})
+			}
+			// other fields (interfaces, channels, maps, ...) stay zero
+		}
+	}
+	return out, true
+}
+
+func structLiteral(n *types.Named, fs []fieldSpec, vals map[string]string, p *replayPlan) (string, bool) {
+	name := n.Obj().Name()
+	if n.TypeParams() != nil && n.TypeParams().Len() > 0 {
+		name += "[*headertest.DummyHeader]"
+		p.needHT = true
+	}
+	var parts []string
+	for _, f := range fs {
+		if f.inner != nil {
+			lit, ok := structLiteral(f.named, f.inner, vals, p)
+			if !ok {
+				return "", false
+			}
+			parts = append(parts, f.name+": &"+lit)
+			continue
+		}
+		if f.hdrSlice != "" {
+			ln, ok := smtIntValue(vals[f.label])
+			if !ok {
+				return "", false
+			}
+			var n int
+			fmt.Sscan(ln, &n)
+			if n < 0 || n > 64 {
+				return "", false
+			}
+			var els []string
+			for i := 0; i < n; i++ {
+				h, ok1 := smtIntValue(vals[fmt.Sprintf("elh:%s:%d", f.hdrSlice, i)])
+				tm, ok2 := smtIntValue(vals[fmt.Sprintf("elt:%s:%d", f.hdrSlice, i)])
+				if !ok1 || !ok2 {
+					return "", false
+				}
+				els = append(els, fmt.Sprintf("{Chainid: \"replay\", HeightI: %s, Timestamp: time.Unix(0, %s).UTC()}", h, tm))
+			}
+			p.needHT, p.needTime = true, true
+			parts = append(parts, f.name+": []*headertest.DummyHeader{"+strings.Join(els, ", ")+"}")
+			continue
+		}
+		g, ok := goScalar(f.typ, vals[f.label], p)
+		if !ok {
+			return "", false
+		}
+		parts = append(parts, f.name+": "+g)
+	}
+	return name + "{" + strings.Join(parts, ", ") + "}", true
+}
+
+// modelValues evaluates the given terms in a model of the failed obligation's query.
+func modelValues(ob *Obligation, terms map[string]string) (map[string]string, bool) {
+	var labels []string
+	for l := range terms {
+		labels = append(labels, l)
+	}
+	sort.Strings(labels)
+	if len(labels) == 0 {
+		return map[string]string{}, true
+	}
+	q := ob.query("z3")
+	if ob.ModelQuery != "" {
+		q = ob.ModelQuery
+	}
+	q = strings.Replace(q, "(get-model)\n", "", 1)
+	for _, l := range labels {
+		q += "(get-value (" + terms[l] + "))\n"
+	}
+	f, err := os.CreateTemp("", "govc-replay-*.smt2")
+	if err != nil {
+		return nil, false
+	}
+	defer os.Remove(f.Name())
+	f.WriteString(q)
+	f.Close()
+	cctx, cancel := context.WithTimeout(context.Background(), 40*time.Second)
+	defer cancel()
+	outb, _ := exec.CommandContext(cctx, "z3-new", "-T:30", f.Name()).CombinedOutput()
+	lines := strings.Split(strings.TrimSpace(string(outb)), "\n")
+	if len(lines) == 0 || strings.TrimSpace(lines[0]) != "sat" {
+		return nil, false
+	}
+	// each get-value prints ((term value)) possibly over several lines: join and split on top-level "(("
+	rest := strings.Join(lines[1:], " ")
+	var chunks []string
+	depth, start := 0, -1
+	for i := 0; i < len(rest); i++ {
+		switch rest[i] {
+		case '(':
+			if depth == 0 {
+				start = i
+			}
+			depth++
+		case ')':
+			depth--
+			if depth == 0 && start >= 0 {
+				chunks = append(chunks, rest[start:i+1])
+				start = -1
+			}
+		}
+	}
+	if len(chunks) != len(labels) {
+		return nil, false
+	}
+	vals := map[string]string{}
+	for i, l := range labels {
+		c := strings.TrimSpace(chunks[i])
+		c = strings.TrimSuffix(strings.TrimPrefix(c, "(("), "))")
+		// c = "<term> <value>": the value is the last balanced token
+		vals[l] = lastToken(c)
+	}
+	return vals, true
+}
+
+func lastToken(s string) string {
+	s = strings.TrimSpace(s)
+	if strings.HasSuffix(s, ")") {
+		depth := 0
+		for i := len(s) - 1; i >= 0; i-- {
+			switch s[i] {
+			case ')':
+				depth++
+			case '(':
+				depth--
+				if depth == 0 {
+					return s[i:]
+				}
+			}
+		}
+		return s
+	}
+	if i := strings.LastIndexAny(s, " \t"); i >= 0 {
+		return s[i+1:]
+	}
+	return s
+}
+
 func tryReplay(eng *Engine, ob *Obligation, repo, outDir string) (string, string, string) {
-	return "no-template", "", ""
+	if ob.Model == "" || ob.fc == nil {
+		return "", "", ""
+	}
+	safety := false
+	switch ob.Kind {
+	case "div0", "index", "slice", "make", "nopanic":
+		safety = true
+	case "ensures":
+	default:
+		return "no-template", "", ""
+	}
+	fn := eng.funcs[ob.Func]
+	plan := planReplay(eng, fn, ob)
+	if plan == nil {
+		return "no-template", "", ""
+	}
+	vals, ok := modelValues(ob, plan.terms)
+	if !ok {
+		return "no-template", "", "model values could not be extracted"
+	}
+	// second pass: elements of header slices
+	if len(plan.sliceTerms) > 0 {
+		extra := map[string]string{}
+		for _, stTerm := range plan.sliceTerms {
+			ln, ok := smtIntValue(vals["sl:"+stTerm])
+			var n int
+			fmt.Sscan(ln, &n)
+			if ok && n > 64 && !strings.Contains(ob.ModelQuery, "; small-slices") {
+				// ask for a counterexample with short slices instead
+				q := ob.ModelQuery
+				if q == "" {
+					q = ob.query("z3")
+				}
+				var cons string
+				for _, t2 := range plan.sliceTerms {
+					cons += "(assert (<= (s-len " + t2 + ") 8))\n"
+				}
+				q = strings.Replace(q, "(check-sat)", "; small-slices\n"+cons+"(check-sat)", 1)
+				saved := ob.ModelQuery
+				ob.ModelQuery = q
+				if v2, ok2 := modelValues(ob, plan.terms); ok2 {
+					vals = v2
+					ln, ok = smtIntValue(vals["sl:"+stTerm])
+					n = 0
+					fmt.Sscan(ln, &n)
+				} else {
+					ob.ModelQuery = saved
+				}
+			}
+			if !ok || n < 0 || n > 64 {
+				return "no-template", "", "header slice too long to rebuild"
+			}
+			if _, d := ob.fc.decls.text["EH_Hdr_0"]; !d && n > 0 {
+				// elements never read: any headers will do
+				for i := 0; i < n; i++ {
+					vals[fmt.Sprintf("elh:%s:%d", stTerm, i)] = fmt.Sprint(i + 1)
+					vals[fmt.Sprintf("elt:%s:%d", stTerm, i)] = "0"
+				}
+				continue
+			}
+			for i := 0; i < n; i++ {
+				el := fmt.Sprintf("(select (select EH_Hdr_0 (s-arr %s)) (ix (s-off %s) %d))", stTerm, stTerm, i)
+				extra[fmt.Sprintf("elh:%s:%d", stTerm, i)] = "(height " + el + ")"
+				extra[fmt.Sprintf("elt:%s:%d", stTerm, i)] = "(htime " + el + ")"
+			}
+		}
+		if len(extra) > 0 {
+			ev, ok := modelValues(ob, extra)
+			if !ok {
+				return "no-template", "", "slice elements could not be extracted from the model"
+			}
+			for k, v := range ev {
+				vals[k] = v
+				plan.terms[k] = extra[k]
+			}
+		}
+	}
+	recv, args, ok := plan.build(vals)
+	if !ok {
+		return "no-template", "", "inputs could not be rebuilt from the model"
+	}
+	if ok, why := inputsAdmissible(eng, ob, fn, plan, vals); !ok {
+		return "not-reproduced", "", "candidate inputs discarded: " + why
+	}
+	call := plan.name + "(" + strings.Join(args, ", ") + ")"
+	if plan.method {
+		call = "recv." + call
+	} else if fn.TypeParams() != nil && fn.TypeParams().Len() > 0 {
+		call = plan.name + "[*headertest.DummyHeader](" + strings.Join(args, ", ") + ")"
+		plan.needHT = true
+	}
+	var b strings.Builder
+	fmt.Fprintf(&b, "package %s\n\nimport (\n\t\"fmt\"\n\t\"testing\"\n", plan.pkgName)
+	if plan.needCtx {
+		b.WriteString("\t\"context\"\n")
+	}
+	if plan.needTime {
+		b.WriteString("\t\"time\"\n")
+	}
+	if plan.needHT {
+		b.WriteString("\t\"" + repoModule + "/headertest\"\n")
+	}
+	b.WriteString(")\n\n// generated by govc from the solver model of " + ob.Name + "\nfunc TestGovcReplay(t *testing.T) {\n")
+	b.WriteString("\tdefer func() {\n\t\tif r := recover(); r != nil {\n\t\t\tfmt.Printf(\"GOVC-PANIC %v\\n\", r)\n\t\t}\n\t}()\n")
+	if plan.method {
+		b.WriteString("\trecv := " + recv + "\n")
+	}
+	switch len(plan.results) {
+	case 0:
+		b.WriteString("\t" + call + "\n\tfmt.Println(\"GOVC-RESULT\")\n")
+	default:
+		var rs []string
+		for i := range plan.results {
+			rs = append(rs, fmt.Sprintf("r%d", i))
+		}
+		b.WriteString("\t" + strings.Join(rs, ", ") + " := " + call + "\n")
+		b.WriteString("\tfmt.Print(\"GOVC-RESULT\")\n")
+		for i, rt := range plan.results {
+			if isErrorType(rt) {
+				fmt.Fprintf(&b, "\tif r%d == nil {\n\t\tfmt.Print(\" nil\")\n\t} else {\n\t\tfmt.Print(\" non-nil\")\n\t}\n", i)
+			} else if namedPath(unalias(rt)) == "time.Duration" {
+				fmt.Fprintf(&b, "\tfmt.Printf(\" %%d\", int64(r%d))\n", i)
+			} else {
+				fmt.Fprintf(&b, "\tfmt.Printf(\" %%v\", r%d)\n", i)
+			}
+		}
+		b.WriteString("\tfmt.Println()\n")
+	}
+	b.WriteString("}\n")
+	test := b.String()
+
+	tmp, err := os.MkdirTemp("", "govc-replay-")
+	if err != nil {
+		return "no-template", test, err.Error()
+	}
+	defer os.RemoveAll(tmp)
+	tf := filepath.Join(tmp, "zz_govc_replay_test.go")
+	os.WriteFile(tf, []byte(test), 0o644)
+	ov, _ := json.Marshal(map[string]any{"Replace": map[string]string{filepath.Join(repo, plan.pkgDir, "zz_govc_replay_test.go"): tf}})
+	ovf := filepath.Join(tmp, "overlay.json")
+	os.WriteFile(ovf, ov, 0o644)
+	cctx, cancel := context.WithTimeout(context.Background(), 180*time.Second)
+	defer cancel()
+	cmd := exec.CommandContext(cctx, "go", "test", "-overlay", ovf, "-vet=off", "-v", "-count=1", "-timeout", "60s", "-run", "^TestGovcReplay$", "./"+plan.pkgDir+"/")
+	cmd.Dir = repo
+	cmd.Env = append(os.Environ(), "GOFLAGS=-mod=mod", "GOPROXY=off", "GOTOOLCHAIN=local")
+	var outb bytes.Buffer
+	cmd.Stdout, cmd.Stderr = &outb, &outb
+	cmd.Run()
+	out := outb.String()
+	if len(out) > 6000 {
+		out = out[:6000]
+	}
+	panicked := strings.Contains(out, "GOVC-PANIC") || strings.Contains(out, "panic:")
+	if safety {
+		if panicked {
+			return "reproduced", test, out
+		}
+		return "not-reproduced", test, out
+	}
+	if panicked {
+		return "reproduced", test, out // an ensures clause cannot hold for a call that panics
+	}
+	// ensures: evaluate the clause on the inputs and the ACTUAL results
+	m := regexp.MustCompile(`(?m)^GOVC-RESULT(.*)$`).FindStringSubmatch(out)
+	if m == nil {
+		return "not-reproduced", test, out
+	}
+	actual := strings.Fields(m[1])
+	if len(actual) != len(plan.results) {
+		return "not-reproduced", test, out
+	}
+	holds, why := clauseHoldsOn(eng, ob, fn, plan, vals, actual)
+	out += "\n" + why
+	switch holds {
+	case "false":
+		return "reproduced", test, out
+	case "true":
+		return "not-reproduced", test, out
+	}
+	return "not-reproduced", test, out
+}
+
+// inputsAdmissible: the rebuilt inputs must be able to satisfy every precondition of the contract (a
+// candidate model found in a weakened query could lie outside the contract; such inputs prove nothing).
+func inputsAdmissible(eng *Engine, ob *Obligation, fn *ssa.Function, plan *replayPlan, vals map[string]string) (ok bool, why string) {
+	spec := eng.specs[ob.Func]
+	if spec == nil || len(spec.Requires) == 0 {
+		return true, ""
+	}
+	defer func() {
+		if r := recover(); r != nil {
+			ok, why = false, fmt.Sprintf("preconditions not evaluable on concrete inputs: %v", r)
+		}
+	}()
+	fc := newFnCtx(eng, fn, spec)
+	fr := fc.newFrame(fn, spec, 0)
+	fr.top = true
+	fc.topFrame = fr
+	st := &State{pc: tTrue, cells: map[cellKey]Val{}, heaps: map[string]Term{}}
+	for i, p := range fn.Params {
+		pname := p.Name()
+		if pname == "_" || pname == "" {
+			pname = fmt.Sprintf("arg%d", i)
+		}
+		fr.env[p] = fc.havocNamed(st, "in_"+pname, p.Type())
+	}
+	fc.entry = st.clone()
+	env := fc.topEnv(fr, spec)
+	var reqs []string
+	for _, rq := range spec.Requires {
+		if len(rq.Tags) > 0 && !hasProp(rq.Tags, eng.activeProp) && eng.activeProp != "" {
+			continue
+		}
+		reqs = append(reqs, fc.evalClauseEnv(st, st, rq, env).S)
+	}
+	var q strings.Builder
+	q.WriteString(smtPrelude)
+	q.WriteString(fc.decls.dump())
+	for _, a := range fc.assertions {
+		q.WriteString("(assert " + a + ")\n")
+	}
+	for l, term := range plan.terms {
+		declared := true
+		for _, sym := range symRe.FindAllString(term, -1) {
+			if !smtVocabulary[sym] && !map[string]bool{"ix": true, "len": true, "arr": true, "off": true, "cap": true, "mk": true, "slice": true, "htime": true}[sym] {
+				if _, d := fc.decls.text[sym]; !d {
+					declared = false
+				}
+			}
+		}
+		if declared {
+			q.WriteString("(assert (= " + term + " " + vals[l] + "))\n")
+		}
+	}
+	for _, r := range reqs {
+		q.WriteString("(assert " + r + ")\n")
+	}
+	q.WriteString("(check-sat)\n")
+	f, err := os.CreateTemp("", "govc-replay-pre-*.smt2")
+	if err != nil {
+		return false, err.Error()
+	}
+	defer os.Remove(f.Name())
+	f.WriteString(q.String())
+	f.Close()
+	cctx, cancel := context.WithTimeout(context.Background(), 30*time.Second)
+	defer cancel()
+	outb, _ := exec.CommandContext(cctx, "z3-new", "-T:20", f.Name()).CombinedOutput()
+	first := strings.TrimSpace(strings.SplitN(string(outb), "\n", 2)[0])
+	if first == "unsat" {
+		return false, "they violate the function's preconditions"
+	}
+	return true, ""
+}
+
+// clauseHoldsOn evaluates the failed ensures clause with the parameters fixed to the model's inputs and the
+// results fixed to what the real code returned ("true" | "false" | "unknown").
+func clauseHoldsOn(eng *Engine, ob *Obligation, fn *ssa.Function, plan *replayPlan, vals map[string]string, actual []string) (res string, why string) {
+	spec := eng.specs[ob.Func]
+	if spec == nil {
+		return "unknown", "no contract"
+	}
+	label := ob.Name[strings.Index(ob.Name, "#ensures:")+len("#ensures:"):]
+	var clause *Clause
+	for i := range spec.Ensures {
+		if clauseLabel(spec.Ensures[i], i) == label {
+			clause = &spec.Ensures[i]
+		}
+	}
+	if clause == nil {
+		return "unknown", "clause not found"
+	}
+	defer func() {
+		if r := recover(); r != nil {
+			res, why = "unknown", fmt.Sprintf("clause not evaluable on concrete results: %v", r)
+		}
+	}()
+	fc := newFnCtx(eng, fn, spec)
+	fr := fc.newFrame(fn, spec, 0)
+	fr.top = true
+	fc.topFrame = fr
+	st := &State{pc: tTrue, cells: map[cellKey]Val{}, heaps: map[string]Term{}}
+	for _, ax := range eng.axioms {
+		if ax.Pkg != "" && ax.Pkg != spec.Pkg && ax.Pkg != "header" {
+			continue
+		}
+		env := newSpecEnv(spec.Pkg)
+		ev := &evaluator{fc: fc, st: st, old: st, env: env, clause: &Clause{File: "axiom " + ax.Name}}
+		fc.define(ev.evalBool(ax.Expr))
+	}
+	for i, p := range fn.Params {
+		pname := p.Name()
+		if pname == "_" || pname == "" {
+			pname = fmt.Sprintf("arg%d", i)
+		}
+		fr.env[p] = fc.havocNamed(st, "in_"+pname, p.Type())
+	}
+	fc.entry = st.clone()
+	env := fc.topEnv(fr, spec)
+	var rvals []Val
+	var extra []string
+	for i, rt := range plan.results {
+		switch {
+		case isErrorType(rt):
+			if actual[i] == "nil" {
+				rvals = append(rvals, T(SErr, "nilErr"))
+			} else {
+				e := fc.fresh("actualerr", SErr)
+				extra = append(extra, "(not (= "+e.S+" nilErr))")
+				rvals = append(rvals, e)
+			}
+		case isScalar(rt):
+			if actual[i] == "true" || actual[i] == "false" {
+				rvals = append(rvals, T(SBool, actual[i]))
+			} else if strings.HasPrefix(actual[i], "-") {
+				rvals = append(rvals, T(SInt, "(- "+actual[i][1:]+")"))
+			} else if regexp.MustCompile(`^\d+$`).MatchString(actual[i]) {
+				rvals = append(rvals, T(SInt, actual[i]))
+			} else {
+				return "unknown", "result not a scalar literal: " + actual[i]
+			}
+		default:
+			return "unknown", "non-scalar result"
+		}
+	}
+	switch len(rvals) {
+	case 0:
+	case 1:
+		env.setResults(rvals[0])
+	default:
+		env.setResults(&TupleVal{Elems: rvals})
+	}
+	t := fc.evalClauseEnv(st, fc.entry, *clause, env)
+	var q strings.Builder
+	q.WriteString(smtPrelude)
+	q.WriteString(fc.decls.dump())
+	for _, a := range fc.assertions {
+		if isQuantified(a) {
+			continue // background axioms are not needed to evaluate a clause on concrete values
+		}
+		q.WriteString("(assert " + a + ")\n")
+	}
+	var labels []string
+	for l := range plan.terms {
+		labels = append(labels, l)
+	}
+	sort.Strings(labels)
+	for _, l := range labels {
+		term := plan.terms[l]
+		ok := true
+		for _, sym := range symRe.FindAllString(term, -1) {
+			if !smtVocabulary[sym] && !map[string]bool{"ix": true, "len": true, "arr": true, "off": true, "cap": true, "mk": true, "slice": true, "htime": true}[sym] {
+				if _, d := fc.decls.text[sym]; !d {
+					ok = false
+				}
+			}
+		}
+		if ok {
+			q.WriteString("(assert (= " + term + " " + vals[l] + "))\n")
+		}
+	}
+	for _, e := range extra {
+		q.WriteString("(assert " + e + ")\n")
+	}
+	// Two ground queries (an `unsat` answer stays valid when hypotheses are missing, so both are sound):
+	//   pins /\ clause      unsat  =>  the clause is FALSE on the real results   (reproduced)
+	//   pins /\ not clause  unsat  =>  the clause HOLDS on the real results      (not reproduced)
+	run := func(goal string) string {
+		f, err := os.CreateTemp("", "govc-replay-eval-*.smt2")
+		if err != nil {
+			return "error"
+		}
+		defer os.Remove(f.Name())
+		f.WriteString(q.String() + "(assert " + goal + ")\n(check-sat)\n")
+		f.Close()
+		cctx, cancel := context.WithTimeout(context.Background(), 30*time.Second)
+		defer cancel()
+		outb, _ := exec.CommandContext(cctx, "z3-new", "-T:20", f.Name()).CombinedOutput()
+		return strings.TrimSpace(strings.SplitN(string(outb), "\n", 2)[0])
+	}
+	if run(t.S) == "unsat" {
+		return "false", "clause `" + clause.Src + "` is FALSE for the model's inputs and the results the real code returned (" + strings.Join(actual, ", ") + ")"
+	}
+	if run("(not "+t.S+")") == "unsat" {
+		return "true", "clause holds for the results the real code returned (" + strings.Join(actual, ", ") + "): counterexample not confirmed"
+	}
+	return "unknown", "ground evaluation inconclusive for the results the real code returned (" + strings.Join(actual, ", ") + ")"
 }
